@@ -36,6 +36,7 @@ import (
 	"runtime"
 	"strconv"
 	"sync"
+	"sync/atomic"
 	"testing"
 	"time"
 
@@ -62,7 +63,11 @@ const (
 	vqG   = -2
 
 	vqChainLen    = 8 // universe blocks 0..7
-	vqStepTimeout = 60 * time.Second
+	vqStepTimeout = 30 * time.Second // >= 10 000 x the normal duration of a replay step
+
+	// after this many hung paths the remaining paths of the run are skipped:
+	// a tree on which calls do not return must not make the check run for hours
+	vqMaxHangs = 8
 )
 
 // --------------------------------------------------------------------------
@@ -524,6 +529,15 @@ func (s *vqSched) park(gate string) {
 	<-c.release
 }
 
+// vqHang is returned when the code under test neither reaches its next gate
+// nor returns within the bound.  It is not a machinery error: it is recorded
+// as the outcome "hang" of the step (with the goroutine dump) and judged.
+type vqHang struct{ msg string }
+
+func (h *vqHang) Error() string { return h.msg }
+
+var vqHangs atomic.Int32
+
 func vqDump() string {
 	buf := make([]byte, 1<<20)
 	return string(buf[:runtime.Stack(buf, true)])
@@ -539,8 +553,8 @@ func (s *vqSched) wait(c *vqCaller) error {
 		c.at = e.gate
 		return nil
 	case <-time.After(vqStepTimeout):
-		return fmt.Errorf("caller %d neither parked nor returned within %v (was at %q); goroutines:\n%s",
-			c.id, vqStepTimeout, c.at, vqDump())
+		return &vqHang{fmt.Sprintf("caller %d neither reached its next gate nor returned within %v (was at %q); "+
+			"goroutines:\n%s", c.id, vqStepTimeout, c.at, vqDump())}
 	}
 }
 
@@ -1026,6 +1040,7 @@ type fqEnv struct {
 	sent    chan struct{}
 	ranCode bool // code under test ran since the last barrier
 	wg      sync.WaitGroup
+	quit1   sync.Once
 	vn      *int // variant forced by a replay file
 	lastVn  int
 }
@@ -1136,7 +1151,7 @@ func (e *fqEnv) close() {
 			}
 		}
 	}
-	close(e.cs.quit)
+	e.quit1.Do(func() { close(e.cs.quit) })
 	done := make(chan struct{})
 	go func() { e.wg.Wait(); close(done) }()
 	select {
@@ -1627,6 +1642,12 @@ func fqRunPath(u *vqUniverse, w *vqWorker, p fqPathIn, seed int64) (out fqPathOu
 	for _, s := range p.Steps {
 		e.vn, e.lastVn = s.Vn, 0
 		a, variant, err := e.exec(s.Act)
+		var hang *vqHang
+		if errors.As(err, &hang) {
+			// the call does not come back: the outcome of this step
+			vqHangs.Add(1)
+			a.Res, variant, err = "hang", hang.msg, nil
+		}
 		if err != nil {
 			out.Error = fmt.Sprintf("step %d (%s): %v", len(out.Steps)+1, s.Act.Op, err)
 			return
@@ -1637,6 +1658,9 @@ func fqRunPath(u *vqUniverse, w *vqWorker, p fqPathIn, seed int64) (out fqPathOu
 			return
 		}
 		out.Steps = append(out.Steps, fqStepOut{Act: a, Obs: o, Var: variant, Vn: e.lastVn})
+		if hang != nil {
+			return // nothing more can be fed to a call that is stuck
+		}
 	}
 	return
 }
@@ -1723,6 +1747,21 @@ func vqReplay(t *testing.T, run func(u *vqUniverse, w *vqWorker, line []byte, se
 			defer wg.Done()
 			defer w.close()
 			for l := range jobs {
+				if vqHangs.Load() >= vqMaxHangs {
+					var hd struct {
+						ID      int             `json:"id"`
+						InitObs json.RawMessage `json:"init_obs"`
+					}
+					if json.Unmarshal(l, &hd) == nil {
+						res, _ := json.Marshal(map[string]interface{}{"id": hd.ID, "init_obs": hd.InitObs,
+							"steps": []int{}, "skipped": "too many hung calls in this run"})
+						outMu.Lock()
+						bw.Write(res)
+						bw.WriteByte('\n')
+						outMu.Unlock()
+					}
+					continue
+				}
 				res, err := run(u, w, l, seed)
 				if err != nil {
 					select {
@@ -1832,6 +1871,7 @@ type bqEnv struct {
 	rng   *rand.Rand
 	done  chan struct{}
 	wg    sync.WaitGroup
+	quit1 sync.Once
 	vn     *int
 	lastVn int
 }
@@ -1909,7 +1949,7 @@ func (e *bqEnv) close() {
 			}
 		}
 	}
-	close(e.cs.quit)
+	e.quit1.Do(func() { close(e.cs.quit) })
 	done := make(chan struct{})
 	go func() { e.wg.Wait(); close(done) }()
 	select {
@@ -2280,6 +2320,12 @@ func bqRunPath(u *vqUniverse, w *vqWorker, p bqPathIn, seed int64) (out bqPathOu
 	for _, s := range p.Steps {
 		e.vn, e.lastVn = s.Vn, 0
 		a, variant, err := e.exec(s.Act)
+		var hang *vqHang
+		if errors.As(err, &hang) {
+			// the call does not come back: the outcome of this step
+			vqHangs.Add(1)
+			a.Res, variant, err = "hang", hang.msg, nil
+		}
 		if err != nil {
 			out.Error = fmt.Sprintf("step %d (%s): %v", len(out.Steps)+1, s.Act.Op, err)
 			return
@@ -2290,6 +2336,9 @@ func bqRunPath(u *vqUniverse, w *vqWorker, p bqPathIn, seed int64) (out bqPathOu
 			return
 		}
 		out.Steps = append(out.Steps, bqStepOut{Act: a, Obs: o, Var: variant, Vn: e.lastVn})
+		if hang != nil {
+			return // nothing more can be fed to a call that is stuck
+		}
 	}
 	return
 }
@@ -2320,7 +2369,11 @@ type vqFreeItem struct {
 type vqFreePeerSpec struct {
 	P      int          `json:"p"`
 	Script []vqFreeItem `json:"script"`
-	End    string       `json:"end"` // "disconnect" | "silent"
+	// "disconnect": hangs up after the script; "silent": says nothing more;
+	// "chatter": keeps sending the unrelated messages of Chatter, one every
+	// 400 ms, for as long as it is connected (never the requested item).
+	End     string       `json:"end"`
+	Chatter []vqFreeItem `json:"chatter,omitempty"`
 }
 
 type vqFreeCall struct {
@@ -2329,6 +2382,39 @@ type vqFreeCall struct {
 	Cap     int              `json:"cap"`
 	Retries int              `json:"retries"`
 	Peers   []vqFreePeerSpec `json:"peers"`
+	// BoundS: wall-clock bound of the call in seconds.  The scenarios are
+	// built so that the unchanged code returns within milliseconds (all
+	// peers answer and hang up) or within the dispatcher's job timeouts
+	// (2 s, 4 s, ... per silent / chattering peer); the bound is far above.
+	BoundS int `json:"bound_s"`
+}
+
+const vqChatterEvery = 400 * time.Millisecond
+
+// vqBounded runs f and reports whether it returned within the bound; if not,
+// the goroutine dump taken at expiry is returned.
+func vqBounded(bound time.Duration, f func()) (bool, string) {
+	done := make(chan struct{})
+	go func() {
+		defer close(done)
+		f()
+	}()
+	select {
+	case <-done:
+		return true, ""
+	case <-time.After(bound):
+		return false, vqDump()
+	}
+}
+
+// vqLockFor takes mu unless it cannot be had within d (a stuck handler).
+func vqLockFor(mu *sync.Mutex, d time.Duration) bool {
+	for end := time.Now().Add(d); time.Now().Before(end); time.Sleep(10 * time.Millisecond) {
+		if mu.TryLock() {
+			return true
+		}
+	}
+	return false
 }
 
 type vqFree struct {
@@ -2349,7 +2435,7 @@ type vqNet struct {
 	peers  map[int]*vqMockPeer
 	byAddr map[string]int
 	wm     query.WorkManager
-	build  func(k string, b int) (wire.Message, string, int)
+	build  func(k string, b int, chatter bool) (wire.Message, string, int)
 	addr   func(p int) string
 }
 
@@ -2361,9 +2447,10 @@ type vqMockPeer struct {
 	reqs   chan wire.Message
 	mu     sync.Mutex
 	subs   []chan wire.Message
-	script []vqFreeItem
-	end    string
-	once   sync.Once
+	script  []vqFreeItem
+	chatter []vqFreeItem
+	end     string
+	once    sync.Once
 }
 
 func (m *vqMockPeer) QueueMessageWithEncoding(msg wire.Message, done chan<- struct{}, _ wire.MessageEncoding) {
@@ -2402,8 +2489,8 @@ func (m *vqMockPeer) run() {
 		m.script = nil
 		subs := append([]chan wire.Message(nil), m.subs...)
 		m.mu.Unlock()
-		for _, it := range script {
-			msg, variant, vn := m.net.build(it.K, it.B)
+		send := func(it vqFreeItem, chatter bool) bool {
+			msg, variant, vn := m.net.build(it.K, it.B, chatter)
 			m.net.smu.Lock()
 			m.net.sent[msg] = vqSent{k: it.K, b: it.B, variant: variant, vn: vn}
 			m.net.smu.Unlock()
@@ -2411,19 +2498,41 @@ func (m *vqMockPeer) run() {
 				select {
 				case ch <- msg:
 				case <-m.net.done:
-					return
+					return false
+				case <-m.quit:
+					return false
 				case <-time.After(10 * time.Second):
 				}
+			}
+			return true
+		}
+		for _, it := range script {
+			if !send(it, false) {
+				return
 			}
 		}
 		if end == "disconnect" && script != nil {
 			m.disconnect()
 			return
 		}
+		if end == "chatter" && script != nil && len(m.chatter) > 0 {
+			for i := 0; ; i++ {
+				select {
+				case <-time.After(vqChatterEvery):
+				case <-m.net.done:
+					return
+				case <-m.quit:
+					return
+				}
+				if !send(m.chatter[i%len(m.chatter)], true) {
+					return
+				}
+			}
+		}
 	}
 }
 
-func newVqNet(build func(k string, b int) (wire.Message, string, int), addr func(p int) string) *vqNet {
+func newVqNet(build func(k string, b int, chatter bool) (wire.Message, string, int), addr func(p int) string) *vqNet {
 	n := &vqNet{sent: map[wire.Message]vqSent{}, done: make(chan struct{}), peerCh: make(chan query.Peer, 16),
 		peers: map[int]*vqMockPeer{}, build: build, addr: addr}
 	n.wm = query.NewWorkManager(&query.Config{
@@ -2448,7 +2557,8 @@ func (n *vqNet) arm(call int, specs []vqFreePeerSpec) {
 		host, _, _ := net.SplitHostPort(n.addr(sp.P))
 		addr := net.JoinHostPort(host, strconv.Itoa(18444+call))
 		m := &vqMockPeer{net: n, p: sp.P, addr: addr, quit: make(chan struct{}),
-			reqs: make(chan wire.Message, 4), script: append([]vqFreeItem{}, sp.Script...), end: sp.End}
+			reqs: make(chan wire.Message, 4), script: append([]vqFreeItem{}, sp.Script...), end: sp.End,
+			chatter: sp.Chatter}
 		n.peers[sp.P] = m
 		n.byAddr[addr] = sp.P
 		go m.run()
@@ -2516,11 +2626,15 @@ func (e *bqEnv) runFree(f *vqFree) ([]bqStepOut, error) {
 	var bmu sync.Mutex
 	net := newVqNet(nil, bqPeer)
 	tgt := 0
-	net.build = func(k string, b int) (wire.Message, string, int) {
+	net.build = func(k string, b int, chatter bool) (wire.Message, string, int) {
 		bmu.Lock()
 		defer bmu.Unlock()
 		m, v := e.message(k, b, tgt)
-		e.last = m
+		if !chatter {
+			// "dup" repeats the previous scripted message; chatter that
+			// reaches an idle worker is never handled and must not count
+			e.last = m
+		}
 		return m, v, e.lastVn
 	}
 	var obsErr error
@@ -2552,7 +2666,7 @@ func (e *bqEnv) runFree(f *vqFree) ([]bqStepOut, error) {
 	}
 	defer func() {
 		close(net.done)
-		_ = twm.Stop()
+		vqBounded(10*time.Second, func() { _ = twm.Stop() })
 	}()
 	for ci, call := range f.Calls {
 		bmu.Lock()
@@ -2566,10 +2680,30 @@ func (e *bqEnv) runFree(f *vqFree) ([]bqStepOut, error) {
 		var blk *btcutil.Block
 		var err error
 		var pv interface{}
-		func() {
+		bound := time.Duration(call.BoundS) * time.Second
+		if bound <= 0 {
+			bound = vqStepTimeout
+		}
+		returned, dump := vqBounded(bound, func() {
 			defer func() { pv = recover() }()
 			blk, err = e.cs.GetBlock(hash, NumRetries(uint8(call.Retries)))
-		}()
+		})
+		if !returned {
+			// GetBlock neither returned a block nor reported failure
+			vqHangs.Add(1)
+			locked := vqLockFor(&net.mu, 2*time.Second)
+			if !submitted {
+				logStep(bqAct{Op: "HeaderLookup", Tgt: tgt, Res: "hang"}, dump, 0)
+			} else {
+				logStep(bqAct{Op: "Hang", Tgt: tgt, Res: "hang"}, fmt.Sprintf("GetBlock did not return within %v; "+
+					"goroutines:\n%s", bound, dump), 0)
+			}
+			if locked {
+				net.mu.Unlock()
+			}
+			e.quit1.Do(func() { close(e.cs.quit) })
+			return steps, obsErr
+		}
 		net.mu.Lock()
 		if submitted {
 			v := "ok"
@@ -2618,7 +2752,7 @@ func (e *fqEnv) runFree(f *vqFree) ([]fqStepOut, error) {
 	var steps []fqStepOut
 	var bmu sync.Mutex
 	net := newVqNet(nil, func(p int) string { return fmt.Sprintf("10.0.%d.%d:18444", p, p) })
-	net.build = func(k string, b int) (wire.Message, string, int) {
+	net.build = func(k string, b int, _ bool) (wire.Message, string, int) {
 		bmu.Lock()
 		defer bmu.Unlock()
 		m, v := e.message(k, b)
@@ -2677,7 +2811,7 @@ func (e *fqEnv) runFree(f *vqFree) ([]fqStepOut, error) {
 	}
 	defer func() {
 		close(net.done)
-		_ = twm.Stop()
+		vqBounded(10*time.Second, func() { _ = twm.Stop() })
 	}()
 	for i, call := range f.Calls {
 		if i >= 2 {
@@ -2699,10 +2833,25 @@ func (e *fqEnv) runFree(f *vqFree) ([]fqStepOut, error) {
 		var flt *gcs.Filter
 		var err error
 		var pv interface{}
-		func() {
+		bound := time.Duration(call.BoundS) * time.Second
+		if bound <= 0 {
+			bound = vqStepTimeout
+		}
+		returned, dump := vqBounded(bound, func() {
 			defer func() { pv = recover() }()
 			flt, err = e.cs.GetCFilter(e.u.hashOf(call.Tgt, e.btip), wire.GCSFilterRegular, opts...)
-		}()
+		})
+		if !returned {
+			vqHangs.Add(1)
+			locked := vqLockFor(&net.mu, 2*time.Second)
+			logStep("Hang", "", 0, "hang", fmt.Sprintf("GetCFilter did not return within %v (last gate %q); "+
+				"goroutines:\n%s", bound, gate, dump), 0)
+			if locked {
+				net.mu.Unlock()
+			}
+			e.quit1.Do(func() { close(e.cs.quit) })
+			return steps, obsErr
+		}
 		net.mu.Lock()
 		early := func(ok bool) string {
 			switch {
